@@ -197,7 +197,7 @@ fn main() {
     );
     run.assume("the object store is CtlStore over InMemory; one request at a time (no concurrent requests); response headers, status and body are the whole observable (no timing)");
     run.assume("effect labels are read from the source text of RootMethod::parse / DbMethod::parse (checked against the server's method_not_found answers)");
-    run.assume("on a loopback instance (every caller is admin) mutating methods are sent by one principal only");
+    run.assume("on a loopback instance (every caller is admin) the admin phase uses four principals (none, garbage, non-UTF-8 header, the admin token) and mutating methods are sent by the first of them only");
     if !machinery_msgs.is_empty() && run.violation_count() == 0 {
         for m in machinery_msgs.iter().take(10) {
             eprintln!("MACHINERY: {m}");
